@@ -33,6 +33,19 @@ NOTES = {
  "C08-m6": "rejected but attributed to C13 only at first -> `shutdown-swallows-cancel` clause, attributed by the parent's cause",
  "C03-m5": "thin at first -> `failed_nested_successors` family",
  "C12-m5": "missed at first (settings were only passed to constructors) -> `lateattr`: settings assigned as attributes after construction",
+ "C15-m5": "missed at first (the listing was judged only when the rendering was faithful) -> the listing leg of C15 is judged on its own",
+ "C15-m6": "missed at first -> `topological_order()` consumed step by step while the query API is used",
+ "C16-m5": "missed at first (every job was given its own requirement set) -> jobs of different schedulers handed one shared set object",
+ "C17-m5": "rejected but attributed to C19 only at first -> edit calls that record something else than what was declared are attributed to C17 too",
+ "C17-m6": "missed at first (queries were only judged on closed schedulers) -> neighbour, closure, entry / exit and traversal queries judged on unclosed schedulers too",
+ "C18-m5": "thin at first -> empty nested schedulers as nodes of the surgery and query families",
+ "C18-m6": "rejected but attributed to C17 only at first -> query, drop a requirement, cut: sequences with nothing in between (`fam_double`)",
+ "C04-m6": "NOT reported: needs the same scheduler to be run twice, which the documentation rules out ('You can't run the same scheduler twice') and every family excludes",
+ "C07-m5": "NOT reported: needs the same scheduler to be run twice (see C04-m6)",
+ "C06-m5": "missed at first (flags were only passed to constructors) -> `lateattr` also assigns `critical` / `forever` after construction",
+ "C10-m6": "missed at first (results were only sampled in C14's family) -> a `res` event in every family: `result()` / `raised_exception()` of every node once the run is over",
+ "C14-m5": "missed at first (no body ever returned an awaitable) -> `awaitable` harness parameter",
+ "C10-m5": "thin at first -> critical-and-forever combinations in `crit_chains`",
 }
 rows = ["| id | property | change | what the check of that property reports (quick tier) |", "|---|---|---|---|"]
 for d in sorted(glob.glob(os.path.join(ROOT, "seeded", "*"))):
